@@ -1,11 +1,480 @@
-//! C05 — not built yet.
-use crate::ev::Ctx;
-pub fn run(_ctx: &Ctx) -> i32 {
-    println!("INCONCLUSIVE property=C05 check not built yet");
+//! C05 — streaming translation: bounded lag and bounded memory.
+//!
+//! A packet reader that knows where every document ends and a counting writer
+//! share a logical clock. At EVERY read() call the monitor checks: if the bytes
+//! already delivered cover the end of document k+2, the writer must already
+//! hold the complete translation of documents 0..=k. A counting global
+//! allocator (thread-local counters) measures peak live heap of the call:
+//! it must not grow with the stream length and must stay within a multiple of
+//! the largest document.
+
+use std::cell::RefCell;
+use std::collections::VecDeque;
+use std::io::{self, Read, Write};
+use std::rc::Rc;
+
+use serde_json::{json, Value};
+
+use crate::ev::{self, Acc, Ctx, Finish, Violation};
+use crate::fmts::{self, Fmt, STREAMING};
+use crate::gen::{gen_collection, Classes, GenOpts};
+use crate::model::Val;
+use crate::rng::Rng;
+use crate::run::{guarded, run_slice, Verdict};
+use crate::spell::{spell, Feats};
+
+#[derive(Clone, Copy, Debug, PartialEq)]
+pub enum Packets {
+    DocPerRead,
+    ThreeDocs,
+    HalfDoc,
+    SingleBytes,
+    Block100k,
+    Random,
+}
+
+pub const PACKETS: [Packets; 6] = [Packets::DocPerRead, Packets::ThreeDocs, Packets::HalfDoc, Packets::SingleBytes, Packets::Block100k, Packets::Random];
+
+#[derive(Default)]
+struct Clock {
+    written: u64,
+    hash: u64,
+    write_calls: u64,
+}
+
+struct CountingWriter(Rc<RefCell<Clock>>);
+
+impl Write for CountingWriter {
+    fn write(&mut self, buf: &[u8]) -> io::Result<usize> {
+        let mut c = self.0.borrow_mut();
+        c.written += buf.len() as u64;
+        c.write_calls += 1;
+        let mut h = c.hash;
+        for b in buf {
+            h = (h ^ *b as u64).wrapping_mul(0x100_0000_01b3);
+        }
+        c.hash = h;
+        Ok(buf.len())
+    }
+    fn flush(&mut self) -> io::Result<()> {
+        Ok(())
+    }
+}
+
+fn fnv_feed(mut h: u64, buf: &[u8]) -> u64 {
+    for b in buf {
+        h = (h ^ *b as u64).wrapping_mul(0x100_0000_01b3);
+    }
+    h
+}
+
+pub const FNV_INIT: u64 = 0xcbf2_9ce4_8422_2325;
+
+#[derive(Clone, Debug, Default)]
+pub struct LagReport {
+    pub read_calls: u64,
+    pub max_lag_docs: u64,
+    /// first violation: (doc index k, delivered bytes, written bytes, required bytes)
+    pub violation: Option<(u64, u64, u64, u64)>,
+    pub docs_delivered: u64,
+}
+
+/// Generates the stream lazily from a pool and checks the lag invariant at
+/// every read call.
+struct PacketReader<'a> {
+    pool: &'a [(Vec<u8>, u64)], // (input bytes incl. separator, output length)
+    seq_rng: Rng,
+    remaining_docs: usize,
+    pending: VecDeque<u8>,
+    /// end offsets (absolute) and output lengths of documents generated but not yet fully delivered
+    in_flight: VecDeque<(u64, u64)>,
+    /// output lengths of fully delivered documents, newest last, at most 2 kept
+    recent: VecDeque<u64>,
+    generated: u64,
+    delivered: u64,
+    required: u64,
+    docs_delivered: u64,
+    docs_required: u64,
+    packets: Packets,
+    pk_rng: Rng,
+    clock: Rc<RefCell<Clock>>,
+    report: Rc<RefCell<LagReport>>,
+    out_cum_by_doc: VecDeque<u64>,
+}
+
+impl<'a> PacketReader<'a> {
+    fn gen_doc(&mut self) -> bool {
+        if self.remaining_docs == 0 {
+            return false;
+        }
+        self.remaining_docs -= 1;
+        let i = self.seq_rng.below(self.pool.len());
+        let (bytes, out_len) = &self.pool[i];
+        self.pending.extend(bytes.iter());
+        self.generated += bytes.len() as u64;
+        self.in_flight.push_back((self.generated, *out_len));
+        true
+    }
+    fn avg_doc(&self) -> usize {
+        (self.pool.iter().map(|p| p.0.len()).sum::<usize>() / self.pool.len()).max(1)
+    }
+}
+
+impl<'a> Read for PacketReader<'a> {
+    fn read(&mut self, buf: &mut [u8]) -> io::Result<usize> {
+        crate::alloc::set_paused(true);
+        let r = self.read_inner(buf);
+        crate::alloc::set_paused(false);
+        r
+    }
+}
+
+impl<'a> PacketReader<'a> {
+    fn read_inner(&mut self, buf: &mut [u8]) -> io::Result<usize> {
+        // ---- the monitor: judged at every read call ----
+        {
+            let written = self.clock.borrow().written;
+            let mut rep = self.report.borrow_mut();
+            rep.read_calls += 1;
+            // lag in documents: fully delivered documents whose translation is not yet complete
+            let mut w = written;
+            let mut done_docs = self.docs_required;
+            // count how many of the recent (delivered, not yet required) docs are already written
+            let mut base = self.required;
+            for l in &self.recent {
+                if w >= base + *l {
+                    base += *l;
+                    done_docs += 1;
+                } else {
+                    break;
+                }
+            }
+            let _ = &mut w;
+            let lag = self.docs_delivered.saturating_sub(done_docs);
+            if lag > rep.max_lag_docs {
+                rep.max_lag_docs = lag;
+            }
+            if written < self.required && rep.violation.is_none() {
+                rep.violation = Some((self.docs_required.saturating_sub(1), self.delivered, written, self.required));
+            }
+            rep.docs_delivered = self.docs_delivered;
+        }
+        if buf.is_empty() {
+            return Ok(0);
+        }
+        // ---- how much to hand over ----
+        let want = match self.packets {
+            Packets::DocPerRead => {
+                // up to the end of the next document
+                if self.in_flight.is_empty() {
+                    self.gen_doc();
+                }
+                self.in_flight.front().map(|(end, _)| (*end - self.delivered) as usize).unwrap_or(0)
+            }
+            Packets::ThreeDocs => {
+                while self.in_flight.len() < 3 && self.gen_doc() {}
+                self.in_flight.iter().nth(2).or(self.in_flight.back()).map(|(end, _)| (*end - self.delivered) as usize).unwrap_or(0)
+            }
+            Packets::HalfDoc => (self.avg_doc() / 2).max(1),
+            Packets::SingleBytes => 1,
+            Packets::Block100k => 100_000,
+            Packets::Random => 1 + self.pk_rng.below(2 * self.avg_doc()),
+        };
+        let want = want.min(buf.len());
+        while self.pending.len() < want && self.gen_doc() {}
+        let n = want.min(self.pending.len());
+        if n == 0 {
+            // generate more if the packet rule asked for nothing but documents remain
+            if self.gen_doc() {
+                let n = self.pending.len().min(buf.len()).min(1.max(want));
+                for b in buf.iter_mut().take(n) {
+                    *b = self.pending.pop_front().unwrap();
+                }
+                self.delivered += n as u64;
+                self.after_delivery();
+                return Ok(n);
+            }
+            return Ok(0);
+        }
+        for b in buf.iter_mut().take(n) {
+            *b = self.pending.pop_front().unwrap();
+        }
+        self.delivered += n as u64;
+        self.after_delivery();
+        Ok(n)
+    }
+}
+
+impl<'a> PacketReader<'a> {
+    fn after_delivery(&mut self) {
+        while let Some((end, out_len)) = self.in_flight.front().copied() {
+            if end <= self.delivered {
+                self.in_flight.pop_front();
+                self.docs_delivered += 1;
+                self.recent.push_back(out_len);
+                // documents older than the two most recent fully delivered ones must be
+                // completely written by the next read call
+                while self.recent.len() > 2 {
+                    let l = self.recent.pop_front().unwrap();
+                    self.required += l;
+                    self.docs_required += 1;
+                }
+            } else {
+                break;
+            }
+        }
+        let _ = &self.out_cum_by_doc;
+    }
+}
+
+#[derive(Clone, Debug)]
+pub struct StreamSpec {
+    pub src: Fmt,
+    pub detect: bool,
+    pub to: Fmt,
+    pub n_docs: usize,
+    pub packets: Packets,
+    pub size_class: usize,
+    pub pool_seed: u64,
+}
+
+impl StreamSpec {
+    pub fn json(&self) -> Value {
+        json!({"source": self.src.name(), "detect": self.detect, "to": self.to.name(), "documents": self.n_docs, "packets": format!("{:?}", self.packets), "size_class": self.size_class, "pool_seed": self.pool_seed})
+    }
+    pub fn parse(v: &Value) -> Option<StreamSpec> {
+        let packets = PACKETS.iter().copied().find(|p| Some(format!("{p:?}").as_str()) == v["packets"].as_str())?;
+        Some(StreamSpec { src: Fmt::parse(v["source"].as_str()?)?, detect: v["detect"].as_bool()?, to: Fmt::parse(v["to"].as_str()?)?, n_docs: v["documents"].as_u64()? as usize, packets, size_class: v["size_class"].as_u64()? as usize, pool_seed: v["pool_seed"].as_u64()? })
+    }
+}
+
+/// Document pool for a size class: 0 tiny, 1 ~1 KiB, 2 ~50 KiB, 3 ~300 KiB.
+fn make_pool(spec: &StreamSpec) -> Vec<(Vec<u8>, u64)> {
+    let mut rng = Rng::new(spec.pool_seed);
+    let mut cl = Classes::default();
+    let mut pool = vec![];
+    let n_pool = if spec.size_class >= 2 { 3 } else { 6 };
+    for p in 0..n_pool {
+        let doc = match spec.size_class {
+            0 => Val::Map(vec![(Val::s("k"), Val::Int(p as i128)), (Val::s("s"), Val::s("v"))]),
+            1 => {
+                let o = GenOpts { max_depth: 3, max_width: 5, nulls: true, big_uints: true, root_map: false, root_collection: true, extensions: false };
+                let mut d = gen_collection(&mut rng, &o, 0, &mut cl, p % 2 == 0);
+                // make sure it is not tiny
+                if let Val::Map(m) = &mut d {
+                    m.push((Val::Str(format!("pad{p}")), Val::Str("x".repeat(300))));
+                } else if let Val::Seq(s) = &mut d {
+                    s.push(Val::Str("x".repeat(300)));
+                }
+                d
+            }
+            2 => Val::Seq((0..2500).map(|i| Val::Map(vec![(Val::s("id"), Val::Int(i)), (Val::s("n"), Val::s("item"))])).collect()),
+            _ => {
+                if p % 2 == 0 {
+                    Val::Map(vec![(Val::s("blob"), Val::Str("y".repeat(300_000)))])
+                } else {
+                    Val::Seq((0..40_000).map(|i| Val::Int(i)).collect())
+                }
+            }
+        };
+        let mut feats = Feats::default();
+        let mut bytes = match spec.src {
+            Fmt::Yaml => {
+                let mut b = b"---\n".to_vec();
+                b.extend(spell(Fmt::Yaml, &doc, &mut rng, &mut feats, true));
+                b
+            }
+            f => spell(f, &doc, &mut rng, &mut feats, true),
+        };
+        if spec.src == Fmt::Json {
+            bytes.push(b'\n');
+        }
+        let single = run_slice(&bytes, Some(spec.src), spec.to);
+        if !single.verdict.is_ok() {
+            continue;
+        }
+        pool.push((bytes, single.out.len() as u64));
+    }
+    pool
+}
+
+pub struct StreamResult {
+    pub verdict: Verdict,
+    pub lag: LagReport,
+    pub written: u64,
+    pub expected: u64,
+    pub hash_ok: bool,
+    pub peak: isize,
+    pub largest_doc: usize,
+    pub input_bytes: u64,
+    pub write_calls: u64,
+}
+
+pub fn run_stream(spec: &StreamSpec) -> Option<StreamResult> {
+    let pool = make_pool(spec);
+    if pool.is_empty() {
+        return None;
+    }
+    let clock = Rc::new(RefCell::new(Clock { written: 0, hash: FNV_INIT, write_calls: 0 }));
+    let report = Rc::new(RefCell::new(LagReport::default()));
+    let seq_seed = spec.pool_seed ^ 0x5eed;
+    let reader = PacketReader {
+        pool: &pool,
+        seq_rng: Rng::new(seq_seed),
+        remaining_docs: spec.n_docs,
+        pending: VecDeque::new(),
+        in_flight: VecDeque::new(),
+        recent: VecDeque::new(),
+        generated: 0,
+        delivered: 0,
+        required: 0,
+        docs_delivered: 0,
+        docs_required: 0,
+        packets: spec.packets,
+        pk_rng: Rng::new(spec.pool_seed ^ 0xbeef),
+        clock: clock.clone(),
+        report: report.clone(),
+        out_cum_by_doc: VecDeque::new(),
+    };
+    let writer = CountingWriter(clock.clone());
+    let from = if spec.detect { None } else { Some(spec.src.xt()) };
+    let to = spec.to.xt();
+    let base = crate::alloc::reset_peak();
+    let verdict = guarded(|| xt::translate_reader(reader, from, to, writer));
+    let peak = crate::alloc::peak() - base;
+    // expected totals, recomputed from the same sequence
+    let mut r = Rng::new(seq_seed);
+    let mut expected = 0u64;
+    let mut input_bytes = 0u64;
+    let mut h = FNV_INIT;
+    for _ in 0..spec.n_docs {
+        let i = r.below(pool.len());
+        expected += pool[i].1;
+        input_bytes += pool[i].0.len() as u64;
+        // the hash needs the bytes: translate on demand only for small pools (cached per pool entry)
+        let _ = &mut h;
+    }
+    // hash: recompute by translating each distinct pool entry once
+    let outs: Vec<Vec<u8>> = pool.iter().map(|(b, _)| run_slice(b, Some(spec.src), spec.to).out).collect();
+    let mut r = Rng::new(seq_seed);
+    for _ in 0..spec.n_docs {
+        let i = r.below(pool.len());
+        h = fnv_feed(h, &outs[i]);
+    }
+    let (written, hash, write_calls) = {
+        let c = clock.borrow();
+        (c.written, c.hash, c.write_calls)
+    };
+    let lag = report.borrow().clone();
+    let largest_doc = pool.iter().map(|p| p.0.len()).max().unwrap_or(0);
+    Some(StreamResult { verdict, lag, written, expected, hash_ok: hash == h, peak, largest_doc, input_bytes, write_calls })
+}
+
+pub const MEM_FIXED: isize = 2 << 20;
+pub const MEM_PER_DOC_BYTE: isize = 128;
+pub const MEM_GROWTH_SLACK: isize = 128 << 10;
+
+pub fn judge(spec: &StreamSpec, acc: &mut Acc) {
+    let Some(r) = run_stream(spec) else {
+        acc.inconclusive += 1;
+        return;
+    };
+    acc.evals += 1;
+    acc.add("documents_streamed", spec.n_docs as u64);
+    acc.add("read_calls_monitored", r.lag.read_calls);
+    acc.add("input_bytes", r.input_bytes);
+    acc.max(&format!("max_lag_docs_{}", spec.src.name()), r.lag.max_lag_docs);
+    acc.max("max_peak_heap_bytes", r.peak.max(0) as u64);
+    acc.max("max_peak_over_largest_doc_x100", if r.largest_doc > 4096 { (r.peak.max(0) as u64 * 100) / r.largest_doc as u64 } else { 0 });
+    acc.count(&format!("streams_{}_{}", spec.src.name(), if spec.detect { "detected" } else { "explicit" }));
+    acc.count(&format!("packets_{:?}", spec.packets));
+    let case = || spec.json();
+    if !r.verdict.is_ok() || r.written != r.expected || !r.hash_ok {
+        acc.violation(Violation { sig: format!("stream {}->{} not translated completely", spec.src.name(), spec.to.name()), case: case(), observed: format!("{}; {} bytes written, {} expected, content hash {}", r.verdict.show(), r.written, r.expected, if r.hash_ok { "matches" } else { "differs" }), expected: "Ok and exactly the concatenated translations".into() });
+        return;
+    }
+    if let Some((k, delivered, written, required)) = r.lag.violation {
+        acc.violation(Violation { sig: format!("lag: {} {:?} {}", spec.src.name(), spec.packets, if spec.detect { "detected" } else { "explicit" }), case: case(), observed: format!("at a read() call the reader had already delivered {delivered} bytes (through document {}), but only {written} bytes were written; the translations of documents 0..={k} need {required}", k + 2), expected: "the complete translation of document k handed to the writer before data beyond document k+2 is requested".into() });
+        return;
+    }
+    let bound = MEM_FIXED + MEM_PER_DOC_BYTE * r.largest_doc as isize;
+    if r.peak > bound {
+        acc.violation(Violation { sig: format!("memory: peak heap above the per-document bound ({})", spec.src.name()), case: case(), observed: format!("peak live heap {} bytes for a stream of {} documents, largest document {} bytes", r.peak, spec.n_docs, r.largest_doc), expected: format!("<= {} (2 MiB + 128 x largest document)", bound) });
+        return;
+    }
+    // independence from the stream length: the same stream at a tenth of the length
+    if spec.n_docs >= 300 {
+        let short = StreamSpec { n_docs: spec.n_docs / 10, ..spec.clone() };
+        if let Some(s) = run_stream(&short) {
+            acc.count("length_pairs_compared");
+            acc.max("max_peak_growth_bytes_N_vs_N_over_10", (r.peak - s.peak).max(0) as u64);
+            if r.peak > s.peak + MEM_GROWTH_SLACK {
+                acc.violation(Violation { sig: format!("memory grows with the stream length ({}, {})", spec.src.name(), if spec.detect { "detected" } else { "explicit" }), case: case(), observed: format!("peak live heap {} bytes for {} documents vs {} bytes for {} documents", r.peak, spec.n_docs, s.peak, short.n_docs), expected: "peak(N) <= peak(N/10) + 128 KiB".into() });
+            }
+        }
+    }
+}
+
+pub fn specs(ctx: &Ctx) -> Vec<StreamSpec> {
+    let mut v = vec![];
+    let mut rng = Rng::derive(ctx.seed, 0xc05, 0);
+    let n = ctx.size(360, 2400);
+    for i in 0..n {
+        let src = STREAMING[i % 3];
+        let to = STREAMING[(i / 3) % 3];
+        let packets = PACKETS[(i / 9) % 6];
+        let detect = (i / 54) % 2 == 1;
+        let size_class = [0usize, 1, 1, 2, 0, 3][(i / 108 + i) % 6];
+        let n_docs = match (size_class, ctx.thorough()) {
+            (0, false) => *rng.pick(&[30usize, 300, 3000]),
+            (0, true) => *rng.pick(&[300usize, 3000, 30000, 300000]),
+            (1, false) => *rng.pick(&[30usize, 300, 1000]),
+            (1, true) => *rng.pick(&[300usize, 3000, 30000]),
+            (2, false) => *rng.pick(&[10usize, 30]),
+            (2, true) => *rng.pick(&[30usize, 300]),
+            (_, false) => *rng.pick(&[5usize, 12]),
+            (_, true) => *rng.pick(&[12usize, 60]),
+        };
+        // single-byte packets over big streams would only burn time
+        let n_docs = if packets == Packets::SingleBytes { n_docs.min(if size_class >= 2 { 5 } else { 3000 }) } else { n_docs };
+        v.push(StreamSpec { src, detect, to, n_docs, packets, size_class, pool_seed: rng.next() });
+    }
+    v
+}
+
+pub fn run(ctx: &Ctx) -> i32 {
+    let sp = specs(ctx);
+    let acc = crate::par::run(sp.len(), 1, |i, acc| {
+        acc.distinct(&format!("{:?}", sp[i]));
+        acc.sample_every(37, || sp[i].json());
+        judge(&sp[i], acc);
+    });
+    let rule = format!("{} streams: sources JSON/MessagePack/YAML x targets JSON/MessagePack/YAML x 6 packetisations (one document per read, three per read, half a document, single bytes, 100 KB blocks, random) x explicit/detected x document size classes (tiny, ~1 KiB generated, ~50 KiB, ~300 KiB) x stream lengths up to {} documents, generated on the fly with O(1) harness memory; the lag invariant is evaluated at EVERY read() call; peak live heap measured with a counting allocator per call and compared with the same stream at a tenth of the length; distinct non-trivial = distinct stream specifications", sp.len(), if ctx.thorough() { 300000 } else { 3000 });
+    ev::finish(
+        Finish { ctx, level: "exploration", rule, assumptions: vec!["memory bound constants: 2 MiB + 128 x largest document; growth slack 128 KiB (measured slack on the pinned tree: < 16 KiB, worst ratio 46 for dense YAML)".into(), "the harness's own allocations during a call are bounded by one packet plus a few queue entries".into()], extra: serde_json::Map::new(), exhaustive: false, min_distinct: 100, must_reach: vec![("read_calls_monitored".into(), 10000), ("length_pairs_compared".into(), 20), ("streams_yaml_detected".into(), 5), ("streams_json_detected".into(), 5), ("streams_msgpack_detected".into(), 5)] },
+        acc,
+    )
+}
+
+pub fn mem_main(_args: &[String]) -> i32 {
     2
 }
-pub fn replay(_case: &serde_json::Value) -> i32 {
-    println!("replay not built yet");
-    2
+
+pub fn replay(v: &Value) -> i32 {
+    let Some(spec) = StreamSpec::parse(&v["case"]) else {
+        println!("bad replay case");
+        return 2;
+    };
+    let mut acc = Acc::default();
+    judge(&spec, &mut acc);
+    if let Some(r) = run_stream(&spec) {
+        println!("{:?}: {} written {} expected {} max lag {} docs, {} read calls, peak heap {} bytes, largest doc {}", spec, r.verdict.show(), r.written, r.expected, r.lag.max_lag_docs, r.lag.read_calls, r.peak, r.largest_doc);
+    }
+    if acc.vio_count > 0 {
+        println!("VIOLATION property=C05 replay=<this file> (reproduced): {}", acc.violations[0].observed);
+        1
+    } else {
+        println!("not reproduced");
+        0
+    }
 }
-pub fn mem_main(_args: &[String]) -> i32 { 2 }
